@@ -134,6 +134,8 @@ class SymNP:
             if dtype is None or _kind(dtype) in ("f", "c", "O"):
                 return x
             return x.astype(dtype)
+        if not self._sfa and isinstance(x, _np.ndarray) and x.dtype != object and (dtype is None or _np.dtype(dtype) == x.dtype):
+            return x  # numpy semantics: no copy (aliasing of the caller's array is observable)
         return self.array(x, dtype=dtype)
 
     def asanyarray(self, x, dtype=None, **kw):
